@@ -193,23 +193,37 @@ Section Metrics.
   Definition count_pair (r c : nat) (l : list (nat * nat)) : nat :=
     countb (fun p => Nat.eqb (fst p) r && Nat.eqb (snd p) c) l.
 
-  (* classes x clusters table; cell (r,c) = number of i with class_idx[i] = r, cluster_idx[i] = c
-     (closed form of the increment loop).  The loop runs over class_idx and indexes cluster_idx, so a
-     shorter second vector panics and a longer one is silently truncated. *)
+  (* classes x clusters table, zero-initialised, then `m[class_idx[i]][cluster_idx[i]] += 1` for
+     i in 0..class_idx.len().  The loop runs over class_idx and indexes cluster_idx, so a shorter
+     second vector panics and a longer one is silently truncated.  (An index outside the table would
+     panic in the code and is ignored here; the indices come from unique_with_indices and are always
+     inside — proved in ProofsCM.v together with the closed form cell (r,c) = #{i : idx pair = (r,c)}.) *)
+  Fixpoint incr_at (l : list nat) (c : nat) : list nat :=
+    match l, c with
+    | [], _ => []
+    | x :: t, 0 => S x :: t
+    | x :: t, S c' => x :: incr_at t c'
+    end.
+  Fixpoint incr2 (m : list (list nat)) (r c : nat) : list (list nat) :=
+    match m, r with
+    | [], _ => []
+    | row :: t, 0 => incr_at row c :: t
+    | row :: t, S r' => row :: incr2 t r' c
+    end.
   Definition contingency_matrix (a b : list Z) : option (list (list nat)) :=
     if Nat.ltb (length b) (length a) then None
     else
       let '(ua, ia) := unique_with_indices a in
       let '(ub, ib) := unique_with_indices b in
-      Some (map (fun r => map (fun c => count_pair r c (combine ia ib)) (seq 0 (length ub)))
-                (seq 0 (length ua))).
+      Some (fold_left (fun m p => incr2 m (fst p) (snd p)) (combine ia ib)
+                      (repeat (repeat 0 (length ub)) (length ua))).
 
   (* HashMap of bin counts; iteration order is unspecified and only changes the order of the
      floating-point summation: the model iterates in increasing key order *)
   Definition bincounts (l : list Z) : list nat := map (count_occ Z.eq_dec l) (usort l).
 
-  Definition entropy (l : list Z) : option T :=
-    let cs := bincounts l in
+  (* the loop over `bincounts.values()` for a given iteration order *)
+  Definition entropy_of_counts (cs : list nat) : option T :=
     let sum := ofn (nsum cs) in
     let e := fold_left (fun e c =>
                  if Nat.ltb 0 c then
@@ -217,6 +231,7 @@ Section Metrics.
                    O.(osub) e (O.(omul) (O.(odiv) pi sum) (O.(osub) (O.(oln) pi) (O.(oln) sum)))
                  else e) cs zero in
     if O.(oeqb) e zero then None else Some e.
+  Definition entropy (l : list Z) : option T := entropy_of_counts (bincounts l).
 
   Definition mi_term (cs csl pisl pjsl : T) (acc : T) (vo : nat * nat) : T :=
     let nm := O.(odiv) (ofn (fst vo)) cs in
